@@ -34,6 +34,9 @@ def make_query(rng, st):
         sc["extra"] = rng.choice([0, 1])
     if st.get("nexts") == "partial" and sc["api"] in ("find", "find_matches"):
         sc["nexts"] = rng.choice(["drain", 1, 2, 3, 4])
+        if rng.random() < 0.12:
+            sc["nexts"] = rng.randint(2, 8)
+            sc["reiter_at"] = rng.randint(1, sc["nexts"] - 1)
         sc["extra"] = rng.choice([0, 1, 2, 5])
     return sc
 
@@ -70,6 +73,8 @@ def nontrivial_query(sc, py):
 def classify_query(ctx, sc, py):
     ctx.count("api:" + sc["api"])
     ctx.count("src:" + ("match" if sc.get("src") else "doc"))
+    if sc.get("reiter_at") is not None:
+        ctx.count("iter() again before call %s" % ("1" if sc["reiter_at"] == 1 else "2+"))
     ctx.count("pathlen:%d" % min(len(sc["path"]), 6))
     for s in sc["path"]:
         ctx.count("step:" + s[0])
@@ -305,7 +310,8 @@ def run_property(ctx, cfg, escalate=1):
             break
         fn(ctx, escalate)
     # generator health (DESIGN §6.1): a silently degenerate generator must not pass for coverage
-    if cfg["streams"] and ctx.evaluations >= 500 and len(ctx.nontrivial) < 0.15 * ctx.evaluations:
+    # (a tree that fails everywhere is not a degenerate generator: its failing inputs are reported)
+    if cfg["streams"] and ctx.evaluations >= 500 and len(ctx.nontrivial) < 0.15 * ctx.evaluations and not found():
         raise RuntimeError(f"degenerate generator: {len(ctx.nontrivial)} non-trivial of {ctx.evaluations}")
 
 
